@@ -7,6 +7,6 @@ Extraction Language OCaml.
 Extraction "face_model.ml"
   run rep_item frames_eqb mk_block split_blocksN app_frames lenN takeN dropN
   c_MaxNDNPacketSize c_recvBufSize
-  send_packet send_fields lp_encode make_ls set_options set_next_seq ls_send handle_frame pkt_decode c10_send_ok single_frame_fits rs_init dl_once_ok effective_mark
+  send_packet send_fields lp_encode make_ls set_options set_next_seq ls_send handle_frame pkt_decode c10_send_ok c10_frames_sem single_frame_fits rs_init dl_once_ok effective_mark
   N.compare Z.of_N
   N.add N.mul N.sub N.of_nat N.to_nat N.eqb N.ltb N.leb N.div N.modulo.
